@@ -8,6 +8,7 @@ import (
 	"runtime"
 	"strconv"
 	"strings"
+	"sync"
 	"syscall"
 	"time"
 )
@@ -147,5 +148,84 @@ func (lifeComp) Gen(r *Rand, tier string, emit func(string)) {
 		emit("ws 10 app garbage")
 		emit("starttls 10 app cut")
 		emit("tcptls 10 app garbage")
+	}
+}
+
+// ---- C17 `burst <carrier> <conns> <size>`: many short "target writes <size> bytes and closes at once" connections,
+// 16 at a time over one session; every application must read exactly <size> bytes and then end-of-stream.
+// (Races between the last data and the close show only under volume.)  result: ok | fail
+
+type burstComp struct{}
+
+func init() { register("burst", burstComp{}) }
+
+func (burstComp) Exec(op string) (string, string, string, bool) {
+	f := strings.Fields(op)
+	if len(f) != 3 {
+		return "bad-op", "", "bad", false
+	}
+	conns, _ := strconv.Atoi(f[1])
+	size, _ := strconv.Atoi(f[2])
+	rig, err := NewRig(RigOpts{Carrier: f[0], Channels: map[string]string{"echo": fmt.Sprintf("source:%d:5", size)}, Insecure: true})
+	if err != nil {
+		return "fail:rig", err.Error(), "fail", false
+	}
+	defer rig.Close()
+	want := payload(5, size)
+	jobs := make(chan int, conns)
+	for i := 0; i < conns; i++ {
+		jobs <- i
+	}
+	close(jobs)
+	var mu sync.Mutex
+	firstErr := ""
+	var wg sync.WaitGroup
+	for w := 0; w < 16; w++ {
+		wg.Add(1)
+		go func() {
+			defer wg.Done()
+			for i := range jobs {
+				mu.Lock()
+				stop := firstErr != ""
+				mu.Unlock()
+				if stop {
+					return
+				}
+				c, err := rig.Dial("echo")
+				if err != nil {
+					continue
+				}
+				_ = c.SetReadDeadline(time.Now().Add(15 * time.Second))
+				got, err := io.ReadAll(c)
+				c.Close()
+				if err != nil || len(got) != size || (size > 0 && (got[0] != want[0] || got[size-1] != want[size-1])) {
+					mu.Lock()
+					if firstErr == "" {
+						firstErr = fmt.Sprintf("connection %d: application read %d of %d bytes before end-of-stream (err=%v)", i, len(got), size, err)
+					}
+					mu.Unlock()
+					return
+				}
+			}
+		}()
+	}
+	wg.Wait()
+	if firstErr != "" {
+		return "fail", firstErr, f[0], false
+	}
+	return "ok", "", f[0], true
+}
+
+func (burstComp) Gen(r *Rand, tier string, emit func(string)) {
+	emit("tcp 3000 300")
+	emit("tcp 400 40000")
+	emit("ws 1500 300")
+	if tier == "thorough" {
+		emit("tcp 30000 300")
+		emit("tcp 3000 100000")
+		emit("tcptls 5000 300")
+		emit("ws 10000 300")
+		emit("stdio 5000 300")
+		emit("udp 3000 300")
 	}
 }
